@@ -172,6 +172,23 @@ def r19_config_invariance(facts_by_cfg, run_rules):
         c.count("assertions examined (%s)" % cfg, n_assert)
         if cfg == "default":
             c.floor("assertions (diverging ifs) in the crate", n_assert, 8)
+    # (f) no width-characteristic constant (EPSILON, MAX, MIN_POSITIVE, ..) in the library's computations: its mathematical value
+    #     differs between the widths, so whatever it enters differs from the double-precision reference by more than rounding
+    WIDTH_CONSTS = ("EPSILON", "MAX", "MIN", "MIN_POSITIVE", "DIGITS", "MANTISSA_DIGITS", "MAX_EXP", "MIN_EXP", "MAX_10_EXP", "MIN_10_EXP", "RADIX")
+    for cfg, facts in (("default", fd), ("f32", f3)):
+        hits = 0
+        for b in facts.bodies:
+            for n in walk(facts.root(b)):
+                if n.get("k") == "NamedConst":
+                    d = n.get("def", "")
+                    last = d.rsplit("::", 1)[-1]
+                    if last in WIDTH_CONSTS and ("f64" in d or "f32" in d) and n.get("ty") in ("f64", "f32", "u32", "i32"):
+                        hits += 1
+                        c.bad("width-const:%s:%s" % (cfg, norm(b["def"])), F.loc(b, n),
+                              "the width-characteristic constant `%s` enters a computation: its value is not the same number in the two builds "
+                              "(2.2e-16 vs 1.2e-7 for EPSILON), so results differ from the double-precision reference by more than rounding" % norm(d))
+        if not hits:
+            c.ok("width-const:%s" % cfg, "-", "no EPSILON / MAX / MIN_POSITIVE / .. of a float type in the %s build's bodies" % cfg)
     # (e) every other rule gives the same obligations under both configurations
     from . import registry as REG
     diffs = 0
